@@ -192,7 +192,7 @@ func (m zzIdent) CryptBlocks(dst, src []byte) {
 //
 //verif:property C19
 //verif:expect-reach end
-//verif:bound stream length each of 0..20 (quick) / 0..40 (thorough), block size 8, content symbolic; plaintext source a bytes.Reader; ciphertext source a bytes.Reader, a reader returning its last bytes together with io.EOF, or one returning at most 3 bytes per call (the last with io.EOF)
+//verif:bound stream length each of 0..20 (quick) / 0..40 (thorough), block size 8, content symbolic; plaintext source a bytes.Reader, a reader returning its last bytes with io.EOF, at most 3 bytes per call, or (0, nil) on every other call; ciphertext source a bytes.Reader, a reader returning its last bytes together with io.EOF, or one returning at most 3 bytes per call (the last with io.EOF)
 //verif:outside sources that return short reads between the helper and the padding reader make CryptBlocks see partial blocks only if the padding reader returns non-multiples; that is covered by H19-reader's prefix property, not here
 //verif:unwind 1200
 func zzH_c19_block() {
@@ -204,10 +204,23 @@ func zzH_c19_block() {
 	L := vChoice("L", maxL+1)
 	data := vBytes("data", L, L)
 	enc := &zzSink{}
-	err := P7BlockEnc(zzIdent{bs}, bytes.NewReader(data), enc)
+	// the plaintext source: a bytes.Reader, a reader that hands out its last bytes together with
+	// io.EOF, one that returns at most 3 bytes per call, or one that answers every other call
+	// with (0, nil) - "nothing happened", not end of stream (io.Reader)
+	var psrc io.Reader = bytes.NewReader(data)
+	switch vChoice("plainSource", 4) {
+	case 1:
+		psrc = &zzEOFReader{data: data, chunk: 1 << 30}
+	case 2:
+		psrc = &zzEOFReader{data: data, chunk: 3}
+	case 3:
+		psrc = &zzZeroReader{data: data, chunk: 5}
+	}
+	err := P7BlockEnc(zzIdent{bs}, psrc, enc)
 	vAssert("enc-ok", err == nil)
 	padLen := bs - L%bs
 	vAssert("enc-len", len(enc.buf) == L+padLen)
+	vAssert("enc-content-is-source-then-pad", len(enc.buf) >= L && bytes.Equal(enc.buf[:L], data))
 	dec := &zzSink{}
 	// the ciphertext source: a bytes.Reader (data, then a separate EOF), a reader that hands out its
 	// last bytes together with io.EOF, or one that returns at most 3 bytes per call
@@ -222,6 +235,35 @@ func zzH_c19_block() {
 	vAssert("dec-ok", err == nil)
 	vAssert("roundtrip", bytes.Equal(dec.buf, data))
 	vReach("end")
+}
+
+// zzZeroReader answers every other call (starting with the first) with (0, nil); otherwise it
+// returns at most chunk bytes, and io.EOF only on a call of its own after the data.
+type zzZeroReader struct {
+	data  []byte
+	pos   int
+	chunk int
+	calls int
+}
+
+func (r *zzZeroReader) Read(p []byte) (int, error) {
+	r.calls++
+	if r.calls%2 == 1 {
+		return 0, nil
+	}
+	if r.pos >= len(r.data) {
+		return 0, io.EOF
+	}
+	n := len(r.data) - r.pos
+	if n > len(p) {
+		n = len(p)
+	}
+	if n > r.chunk {
+		n = r.chunk
+	}
+	copy(p, r.data[r.pos:r.pos+n])
+	r.pos += n
+	return n, nil
 }
 
 // zzEOFReader returns at most chunk bytes per call and reports io.EOF together with the last bytes.
